@@ -24,10 +24,10 @@ NoName      == [some |-> FALSE, b |-> <<>>]
 SomeName(b) == [some |-> TRUE, b |-> b]
 
 \* Message pieces (rendered to text by concatenation, nothing else)
-S(x)  == [p |-> "s", s |-> x]          \* fixed text
-Bt(x) == [p |-> "b", b |-> x]          \* bytes (a name, a key)
-N(x)  == [p |-> "n", n |-> x]          \* an integer in decimal
-L(x)  == [p |-> "loc", loc |-> x]      \* a source position `line:col`
+PS(x)  == [p |-> "s", s |-> x]          \* fixed text
+PB(x) == [p |-> "b", b |-> x]          \* bytes (a name, a key)
+PN(x)  == [p |-> "n", n |-> x]          \* an integer in decimal
+PL(x)  == [p |-> "loc", loc |-> x]      \* a source position `line:col`
 
 ArithOps == {"+", "-", "*", "/", "%"}
 OrdOps   == {"<", "<=", ">", ">="}
@@ -74,7 +74,7 @@ EqListFrom(xs, ys, i, heap, path) ==
     IF i > Len(xs) THEN EqBool(TRUE)
     ELSE LET r == EqV(xs[i].v, ys[i].v, heap, path)
          IN  IF r.r = "err"
-             THEN [r EXCEPT !.path = <<S("["), N(i - 1), S("]")>> \o r.path]
+             THEN [r EXCEPT !.path = <<PS("["), PN(i - 1), PS("]")>> \o r.path]
              ELSE IF ~r.b THEN r
              ELSE EqListFrom(xs, ys, i + 1, heap, path)
 
@@ -84,7 +84,7 @@ EqObjFrom(xs, ys, keys, i, heap, path) ==
          IF key \notin DOMAIN ys THEN EqBool(FALSE)
          ELSE LET r == EqV(xs[key].v, ys[key].v, heap, path)
               IN  IF r.r = "err"
-                  THEN [r EXCEPT !.path = <<S(".'"), Bt(key), S("'")>> \o r.path]
+                  THEN [r EXCEPT !.path = <<PS(".'"), PB(key), PS("'")>> \o r.path]
                   ELSE IF ~r.b THEN r
                   ELSE EqObjFrom(xs, ys, keys, i + 1, heap, path)
 
@@ -105,22 +105,22 @@ OpErr(kind, msg) == [r |-> "err", kind |-> kind, msg |-> msg]
 
 InvalidOpTypes(op, a, b) ==
     OpErr("InvalidOpTypes",
-          <<S("can't apply '"), S(op), S("' to '"), S(TypeName(a)), S("' and '"),
-            S(TypeName(b)), S("'")>>)
+          <<PS("can't apply '"), PS(op), PS("' to '"), PS(TypeName(a)), PS("' and '"),
+            PS(TypeName(b)), PS("'")>>)
 
 IntOverflow(op, a, b) ==
     OpErr("IntOverflow",
-          <<S("'"), N(a), S(" "), S(op), S(" "), N(b), S("' caused an integer overflow")>>)
+          <<PS("'"), PN(a), PS(" "), PS(op), PS(" "), PN(b), PS("' caused an integer overflow")>>)
 
 ApplyOp(op, a, b, heap) ==
     IF op \in EqOps THEN
         LET r == Eq(a, b, heap) IN
         IF r.r = "bool" THEN OpVal(VBool(IF op = "==" THEN r.b ELSE ~r.b))
         ELSE OpErr("InvalidEqOpTypes",
-                   <<S("can't apply '"), S(op), S("' to '"), S(r.lt), S("' and '"),
-                     S(r.rt), S("'")>>
+                   <<PS("can't apply '"), PS(op), PS("' to '"), PS(r.lt), PS("' and '"),
+                     PS(r.rt), PS("'")>>
                    \o (IF r.path = <<>> THEN <<>>
-                       ELSE <<S(" (at ")>> \o r.path \o <<S(")")>>))
+                       ELSE <<PS(" (at ")>> \o r.path \o <<PS(")")>>))
     ELSE IF op \in RefOps THEN
         IF RefEqDefined(a, b)
         THEN OpVal(VBool(IF op = "===" THEN RefEq(a, b) ELSE ~RefEq(a, b)))
